@@ -42,6 +42,12 @@ class WireUnit(VU):
             return v
         rt.hooks["puresnmp.util:get_request_id"] = clock
 
+    def frame_c20(self, interp, mproc, before, what):
+        """C20: an exception (or a result) for one datagram leaves the message processor usable for the next one:
+        the receive path writes nothing but the (idempotent) creation of the security model"""
+        changed = {k for k in set(mproc.fields) | set(before) if mproc.fields.get(k) is not before.get(k)}
+        interp.ctx.check(oname("C20", what, "frame", "receive-path-writes-only-the-security-model-slot"), changed <= {"security_model"})
+
     def creds(self, interp, family):
         rt, ctx = self.rt, interp.ctx
         if family == "V3":
@@ -150,11 +156,13 @@ class Receive(WireUnit):
         mproc = interp.call(mk, [version, Opaque("handler"), PDict()], {})
         T = self.target
         exc = pdu = content = None
+        before = dict(mproc.fields)
         try:
             pdu = interp.call(rt.getattr(interp, mproc, "decode"), [raw, creds], {})
             content = rt.getattr(interp, pdu, "value")
         except PyExc as pe:
             exc = pe.obj
+        self.frame_c20(interp, mproc, before, T)
         if not self.error:
             ctx.check(oname("C06", T, "ensures", "a-well-formed-response-is-accepted"), exc is None)
             if exc is not None:
@@ -281,6 +289,8 @@ class TrapDelivery(WireUnit):
             interp.call(captured["decode"], [packet], {})
         except PyExc as pe:
             exc = pe.obj
+        ctx.check(oname("C20", T, "frame", "a-datagram-leaves-no-state-behind(no-module-level-write-no-listener-state)"),
+                  not rt.global_writes)
         if not self.community_ok:
             ctx.check(oname("C19", T, "ensures", "foreign-community-is-never-delivered"), not called and not scheduled)
             return "dropped"
